@@ -30,6 +30,17 @@ def coal(mask: int) -> Coalition:
     return Coalition(int(mask))
 
 
+def coal_listed(mask: int) -> Coalition:
+    """The same coalition the way a user may write it down: from a listing of its players - descending, with the largest player
+    named twice when the mask has an odd number of players (two overlapping teams concatenated).  from_players treats the
+    listing as a set."""
+    mask = int(mask)
+    players = [i for i in range(mask.bit_length()) if mask >> i & 1][::-1]
+    if len(players) % 2 == 1:
+        players = players + players[:1]
+    return Coalition.from_players(players)
+
+
 def coals(masks) -> list[Coalition]:
     return [Coalition(int(m)) for m in masks]
 
